@@ -446,6 +446,8 @@ def edited_case(case, e):
         c["teams"][-1]["workers"].append(copy.deepcopy(e["worker"]))
     elif k == "rate":
         c["tasks"][e["t"]]["rate"] = e["val"]
+    elif k == "target":
+        c["tasks"][e["t"]]["teams"] = list(c["tasks"][e["t"]]["teams"]) + [e["team"]]
     else:
         raise ValueError(k)
     return c
@@ -465,9 +467,19 @@ def apply_edit(b, e):
     elif k == "cost":
         worker(e["team"], e["j"]).cost_per_time = fl(e["val"])
     elif k == "wabs":
-        worker(e["team"], e["j"]).absence_time_list = list(e["list"])
+        if e.get("inplace"):
+            lst = worker(e["team"], e["j"]).absence_time_list       # the same list object, edited in place
+            del lst[:]
+            lst.extend(e["list"])
+        else:
+            worker(e["team"], e["j"]).absence_time_list = list(e["list"])
     elif k == "edge":
-        b.tasks[e["s"]].append_input_task(b.tasks[e["p"]], task_dependency_mode=BaseTaskDependency(e["k"]))
+        if e.get("extend"):
+            b.tasks[e["s"]].extend_input_task_list([b.tasks[e["p"]]], task_dependency_mode=BaseTaskDependency(e["k"]))
+        else:
+            b.tasks[e["s"]].append_input_task(b.tasks[e["p"]], task_dependency_mode=BaseTaskDependency(e["k"]))
+    elif k == "target":
+        b.teams[e["team"]].append_targeted_task(b.tasks[e["t"]])
     elif k == "rate":
         b.tasks[e["t"]].work_amount_progress_of_unit_step_time = fl(e["val"])
     elif k == "add_worker":
